@@ -83,27 +83,32 @@ package core
 
 // ---- C15: service safe points ----
 // gc_worker's own entry can neither be removed nor saved with a finite lifetime; an empty service id is refused.
+// The key of a service's GC safe point: the service id appended AS IT IS to "gc/safe_point/service/" (no path cleaning:
+// distinct ids have distinct keys, none of them is the GC safe point's own key).
+//@ pure svcKey(id string) = strcat(strcat(gocall("path.Join#0/3", "gc", "safe_point", "service"), "/"), id)
 //@ func (*Storage).SaveServiceGCSafePoint
 //@   props C15
 //@   requires ssp != nil
 //@   ensures [gcworker-infinite] result == nil ==> !(ssp.ServiceID == "gc_worker" && ssp.ExpiredAt != MaxInt64)
 //@   ensures [nonempty] result == nil ==> ssp.ServiceID != ""
 //@   ensures [refused-unchanged] (ssp.ServiceID == "" || (ssp.ServiceID == "gc_worker" && ssp.ExpiredAt != MaxInt64)) ==> result != nil && kvval == old(kvval) && kvhas == old(kvhas)
-//@   ensures [one-key] forall k :: k != gocall("path.Join#0/4", "gc", "safe_point", "service", ssp.ServiceID) ==> kvval[k] == old(kvval[k]) && kvhas[k] == old(kvhas[k])
-//@   ensures [saved] result == nil ==> kvhas[gocall("path.Join#0/4", "gc", "safe_point", "service", ssp.ServiceID)]
+//@   ensures [one-key] forall k :: k != svcKey(ssp.ServiceID) ==> kvval[k] == old(kvval[k]) && kvhas[k] == old(kvhas[k])
+//@   ensures [saved] result == nil ==> kvhas[svcKey(ssp.ServiceID)]
+//@   ensures [gcworker-entry-and-gc-safe-point-untouched-by-any-other-id] ssp.ServiceID != "gc_worker" ==> kvhas[svcKey("gc_worker")] == old(kvhas[svcKey("gc_worker")]) && kvval[svcKey("gc_worker")] == old(kvval[svcKey("gc_worker")]) && kvhas[gocall("path.Join#0/2", "gc", "safe_point")] == old(kvhas[gocall("path.Join#0/2", "gc", "safe_point")]) && kvval[gocall("path.Join#0/2", "gc", "safe_point")] == old(kvval[gocall("path.Join#0/2", "gc", "safe_point")])
 //@   modifies ghost kvhas, ghost kvval
 
 //@ func (*Storage).RemoveServiceGCSafePoint
 //@   props C15
 //@   ensures [gcworker-kept] serviceID == "gc_worker" ==> result != nil && kvval == old(kvval) && kvhas == old(kvhas)
-//@   ensures [removed] result == nil ==> !kvhas[gocall("path.Join#0/4", "gc", "safe_point", "service", serviceID)]
-//@   ensures [one-key] forall k :: k != gocall("path.Join#0/4", "gc", "safe_point", "service", serviceID) ==> kvval[k] == old(kvval[k]) && kvhas[k] == old(kvhas[k])
+//@   ensures [gcworker-entry-and-gc-safe-point-untouched-whatever-the-id] kvhas[svcKey("gc_worker")] == old(kvhas[svcKey("gc_worker")]) && kvval[svcKey("gc_worker")] == old(kvval[svcKey("gc_worker")]) && kvhas[gocall("path.Join#0/2", "gc", "safe_point")] == old(kvhas[gocall("path.Join#0/2", "gc", "safe_point")])
+//@   ensures [removed] result == nil ==> !kvhas[svcKey(serviceID)]
+//@   ensures [one-key] forall k :: k != svcKey(serviceID) ==> kvval[k] == old(kvval[k]) && kvhas[k] == old(kvhas[k])
 //@   modifies ghost kvhas, ghost kvval
 
 //@ func (*Storage).initServiceGCSafePointForGCWorker
 //@   props C15
 //@   ensures [infinite] r1 == nil ==> r0 != nil && r0.ServiceID == "gc_worker" && r0.ExpiredAt == MaxInt64 && r0.SafePoint == initialValue
-//@   ensures [saved] r1 == nil ==> kvhas[gocall("path.Join#0/4", "gc", "safe_point", "service", "gc_worker")]
+//@   ensures [saved] r1 == nil ==> kvhas[svcKey("gc_worker")]
 //@   modifies ghost kvhas, ghost kvval
 
 // ---- C14: the store map ----
